@@ -98,58 +98,87 @@ def PRes.append (a b : PRes) : PRes :=
   | _, .unresolved => .unresolved
   | _, _ => .outside
 
-/-- the declared properties of a props type -/
-def propsOfType (fuel : Nat) (reg : St) (ty : Node) : PRes :=
+/-- the name by which a string-literal key type can select a declared property: identifier and quoted keys (a numeric key is
+    selected by a numeric literal type only, which `literalStrings` does not read) -/
+def pickName (k : Node) : Option String :=
+  match k with
+  | .mk .ident (n :: _) _ => some n
+  | .mk .str (v :: _) _ => some v
+  | _ => none
+
+def pickedBy (keys : List String) (p : PropSpec) : Bool :=
+  match pickName p.key with
+  | some n => keys.contains n
+  | none => false
+
+/-- the declared properties of a props type; `idx = false` switches the reading of indexed access off (used to state the
+    refinement theorem `C16_refines_spec` for everything else) -/
+def propsOfTypeG (idx : Bool) (fuel : Nat) (reg : St) (ty : Node) : PRes :=
   match fuel with
   | 0 => .outside
   | fuel + 1 =>
     match ty with
     | .mk .tsTypeLit _ [.mk .list _ members] => .ok (membersSpec members)
-    | .mk .tsParen _ [t] => propsOfType fuel reg t
-    | .mk .tsIntersection _ [.mk .list _ ts] => ts.foldl (fun acc t => acc.append (propsOfType fuel reg t)) (.ok [])
+    | .mk .tsParen _ [t] => propsOfTypeG idx fuel reg t
+    | .mk .tsIntersection _ [.mk .list _ ts] => ts.foldl (fun acc t => acc.append (propsOfTypeG idx fuel reg t)) (.ok [])
     | .mk .tsUnion _ _ => .outside
     | .mk .tsTypeRef _ [.mk .ident (n :: b :: _) _, tparams] =>
       match lookupReg reg.typeAliases (n, b) with
-      | some t => propsOfType fuel reg t
+      | some t => propsOfTypeG idx fuel reg t
       | none =>
         match lookupReg reg.interfaces (n, b) with
         | some (.mk .tsIface _ [_, _, .mk .list _ ext, .mk .tsIfaceBody _ [.mk .list _ members]]) =>
           ext.foldl (fun acc p =>
-            match p with
-            | .mk .tsExprWithTypeArgs _ [.mk .ident ias _, targs] =>
-              -- `extends B`, `extends Partial<B>`: the parent is the type reference written there, type arguments included
-              acc.append (propsOfType fuel reg (.mk .tsTypeRef [] [.mk .ident ias [], targs]))
-            | _ => acc.append .unresolved) (.ok (membersSpec members))   -- `extends NS.B`: unsupported, must be reported
+            acc.append
+              (match p with
+               -- `extends B`, `extends Partial<B>`: the parent is the type reference written there, type arguments included
+               | .mk .tsExprWithTypeArgs _ [.mk .ident ias _, targs] => propsOfTypeG idx fuel reg (.mk .tsTypeRef [] [.mk .ident ias [], targs])
+               | _ => .unresolved))                          -- `extends NS.B`: unsupported, must be reported
+            (.ok (membersSpec members))
         | some _ => .outside
         | none =>
           if b != "u" then .unresolved else      -- bound, but not a local type: imported from another module
           let ps := typeParamsList tparams
           if n == "Partial" then
-            (match ps.head? with | some p => (propsOfType fuel reg p).bind fun xs => .ok (xs.map fun x => { x with optional := true }) | none => .outside)
+            (match ps.head? with | some p => (propsOfTypeG idx fuel reg p).bind fun xs => .ok (xs.map fun x => { x with optional := true }) | none => .outside)
           else if n == "Required" then
-            (match ps.head? with | some p => (propsOfType fuel reg p).bind fun xs => .ok (xs.map fun x => { x with optional := false }) | none => .outside)
-          else if n == "Pick" || n == "Omit" then
+            (match ps.head? with | some p => (propsOfTypeG idx fuel reg p).bind fun xs => .ok (xs.map fun x => { x with optional := false }) | none => .outside)
+          else if n == "Pick" then
             match ps with
             | objT :: keysT :: _ =>
-              (propsOfType fuel reg objT).bind fun props =>
+              (propsOfTypeG idx fuel reg objT).bind fun props =>
                 match literalStrings fuel reg keysT with
-                | some keys => .ok (props.filter fun p => if n == "Pick" then keys.contains (specKeyName p.key) else !keys.contains (specKeyName p.key))
+                | some keys => .ok (props.filter (pickedBy keys))
+                | none => .unresolved
+            | _ => .outside
+          else if n == "Omit" then
+            match ps with
+            | objT :: keysT :: _ =>
+              (propsOfTypeG idx fuel reg objT).bind fun props =>
+                match literalStrings fuel reg keysT with
+                | some keys => .ok (props.filter fun p => !pickedBy keys p)
                 | none => .unresolved
             | _ => .outside
           else .unresolved                          -- an undeclared name or an unsupported utility type
     | .mk .tsIndexed _ [objT, idxT] =>
-      -- `T['k']`: the type of property k of T
-      (propsOfType fuel reg objT).bind fun props =>
+      if !idx then .outside else
+      -- `T['k']`: the type of property k of T (every declaration of k when T is an intersection that declares it twice)
+      (propsOfTypeG idx fuel reg objT).bind fun props =>
         match literalStrings fuel reg idxT with
         | some [k] =>
-          match props.find? (fun p => specKeyName p.key == k) with
-          | some p => (match p.ty with | some t => propsOfType fuel reg t | none => .outside)
-          | none => .outside
+          match props.filter (pickedBy [k]) with
+          | [] => .outside
+          | sel =>
+            if sel.any (·.ty.isNone) then .outside else
+            sel.foldl (fun acc p => acc.append (match p.ty with | some t => propsOfTypeG idx fuel reg t | none => .outside)) (.ok [])
         | _ => .outside
     | .mk .tsTypeRef _ _ => .unresolved             -- qualified names
     | .mk .tsKeyword _ _ => .unresolved
     | .mk (.other _) _ _ => .unresolved             -- keyof, typeof, mapped, conditional, ... types
     | _ => .outside
+
+/-- the declared properties of a props type -/
+def propsOfType (fuel : Nat) (reg : St) (ty : Node) : PRes := propsOfTypeG true fuel reg ty
 
 /-! ### runtime constructors (C17) -/
 
